@@ -151,6 +151,28 @@ theorem C04_vcd_block_values (bits : Nat) (hb2 : 2 ≤ bits) (calls : List (Nat 
         toSyms x.2.1 d bits = nums :=
   vcd_block_values bits hb2 calls s hw
 
+/-- the same for the pre-encoded path (`raw_value_change`, used by the GHW loader): one entry per call at the call's time index;
+`compress_template` is the same function as the slicing core `repack` (`compressTemplate_eq_repack`), so the symbols behind such
+an entry are those of C13_minimal_repack -/
+theorem C04_raw_block_roundtrip (c : Codec) (signals : Array SigEnc) (i : Nat) (s : SigEnc) (bits : Nat) (tt : List Nat) (t0 : Nat)
+    (calls : List (Nat × List Nat × States)) (hb : bits ≠ 1) (hne : calls ≠ [])
+    (hw : rawWrites { tpe := .bitvec bits } calls = some s) (hs : signals.toList[i]? = some s)
+    (hsorted : (calls.map (·.1)).Pairwise (· ≤ ·)) (hsmall : ∀ t ∈ calls.map (·.1), t < 2 ^ 30)
+    (hlen : divCeil s.dataBytes.length 32 < 2 ^ 32) :
+    ∃ cs : List (Nat × States × List Nat),
+      (absolutise 0 cs).map (·.1) = calls.map (·.1) ∧
+      (let r := finishSignals c signals
+       let b : Block := { startTime := t0, timeTable := tt, offsets := r.2.1, data := r.2.2 }
+       loadSignal { blocks := [b] } i (.bitvec bits) =
+         some { maxStates := s.maxStates,
+                times := (replayAbs bits s.maxStates (absolutise 0 cs) {}).timesRev.reverse,
+                entries := (replayAbs bits s.maxStates (absolutise 0 cs) {}).entriesRev.reverse }) :=
+  raw_block_roundtrip c signals i s bits tt t0 calls hb hne hw hs hsorted hsmall hlen
+
+theorem C04_compress_is_repack (inS outS : States) (value : List Nat) (bits : Nat) (hbits : bits ≤ value.length * inS.bib) :
+    compressTemplate value inS outS bits = Wellen.Slice.repack inS outS value 0 bits 0 :=
+  Wellen.Slice.compressTemplate_eq_repack inS outS value bits hbits
+
 /-- the stream the theorems are about is what the encoder appends: `add_n_bit_change` on a multi-bit signal -/
 theorem C04_encoder_chunk (ti : Nat) (value : List Nat) (st : States) (s s' : SigEnc) (bits : Nat)
     (ht : s.tpe = .bitvec bits) (hb : bits ≠ 1) (h : addNBit ti value st s = some s') :
